@@ -660,7 +660,20 @@ pub fn generate(thorough: bool, rng: &mut Rng, ops: &mut Vec<String>, stats: &mu
                         11 => {
                             // the entry cut to a PREFIX of itself (what an interrupted copy / a full disk leaves)
                             stats.hit("plant.cut-to-prefix");
-                            steps.push(format!("t,{proper},{}", rng.below(len as u64 + 1)));
+                            // (preferably of a file the cache keeps)
+                            let kept: Vec<(u8, String, usize)> =
+                                written.iter().filter(|(a, b, l)| *l > 0 && (matches!(*a, 1 | 3) || cb_of(*a, b) == 1)).cloned().collect();
+                            let (t2, id, len) = if kept.is_empty() { (t2, id, len) } else { rng.pick(&kept).clone() };
+                            let proper = format!("{}/{}/{id}", dirs[t2 as usize], &id[..2]);
+                            let cut = rng.below(len as u64 + 1) as usize;
+                            steps.push(format!("t,{proper},{cut}"));
+                            if cut < len && rng.chance(2, 3) {
+                                // ... and a ranged read through the cached handle that reaches beyond the cut
+                                stats.hit("op.read-partial.beyond-cut");
+                                let off = rng.below(cut as u64 + 1) as usize;
+                                let end = cut + 1 + rng.below((len - cut) as u64) as usize;
+                                steps.push(format!("p,c,{t2},{id},{},{off},{}", cb_of(t2, &id), end - off));
+                            }
                         }
                         12 => match rng.below(3) {
                             0 => {
